@@ -343,7 +343,7 @@ func (r *rewriter) rewriteForRanges(c *astutil.Cursor, pkg loader.Pkg) bool {
 //		$body
 //	}
 func (r *rewriter) rewriteForRange(pkg loader.Pkg, fr *ast.RangeStmt) *ast.ForStmt {
-	isValid := fr.Key != nil && fr.Value == nil
+	isValid := fr.Value == nil
 	r.assert(pkg, isValid, fr, "invalid for range")
 
 	// iter := X.Ident(cstIterVar)
@@ -353,6 +353,10 @@ func (r *rewriter) rewriteForRange(pkg loader.Pkg, fr *ast.RangeStmt) *ast.ForSt
 
 	init := X.Define(iter, fr.X)
 	cond := X.Call(next)
+	if fr.Key == nil {
+		// for range $X { $body } => for it := $X; it.Next(); { $body }
+		return X.ForStmt(init, cond, nil, fr.Body)
+	}
 	body := X.Block1(
 		X.Assign(fr.Tok, fr.Key, X.Call(current)),
 		fr.Body.List...,
